@@ -4,7 +4,7 @@ from contracts import multivector_c as MC
 from . import common as K
 
 LEVEL = 'other'
-EXPLANATION = ('Proved (structure, via the operator contracts): codegen_outerexp builds term j as (term j-1 ^ x) with coefficients divided by j '
+EXPLANATION = ('Proved on generic operands (contracts/inverse_c.py): the real bodies of codegen_outerexp/outersin/outercos return sum_k x^(wedge k)/k! (all / odd / even k) as polynomial identities over Q for operands of every single grade >= 1 and their sum, d <= 4 (5 in the thorough tier).  Proved (structure, via the operator contracts): codegen_outerexp builds term j as (term j-1 ^ x) with coefficients divided by j '
                '(= x^(wedge j)/j!), for j <= d, dropping a term only if it is empty; outersin/outercos sum the odd/even terms, outertan = '
                'outersin / outercos; MultiVector.__pow__ is the repeated geometric product, of the inverse for negative powers, the scalar 1 for '
                '0 and sqrt for 0.5; norm() = sqrt(normsq()), normalized() = x / norm(); codegen_sqrt: operator tree of a, bI = x - a, normS = (a*a - bI*bI).e, result c + bI*c2_inv, and the two dependency texts parsed and evaluated (c^2 == (a + sqrt(normS))/2, c2_inv == 1/(2c)).  MultiVector.exp: every branch of the type / sign dispatch '
@@ -23,6 +23,8 @@ def build(H, tier, seed):
     M.vc_pow(H)
     M.vc_codegen_sqrt(H)
     M.vc_exp(H)
+    from contracts import inverse_c as I
+    I.vc_outerexp_generic(H, tier)
     MC.vc_mv_norms(H)
     MC.vc_mv_delegations(H, methods_binary=[], methods_unary=['sqrt', 'normsq', 'outerexp', 'outersin', 'outercos', 'outertan', 'inv'])
 
